@@ -32,7 +32,7 @@ def model_cfgs(prop, thorough):
     if prop == "C11":
         res = [("vol", dict(MBASE, VolCfg=vols, Attrs={"ro", "big"}, Bits={0}, MaxOps=3 + t, MaxSrv=3))]
         if thorough:
-            res.append(("asmin", dict(MBASE, Attrs={"ro"}, EcCfg=[], AsMin=True, MaxOps=6, MaxSrv=4,
+            res.append(("asmin", dict(MBASE, Attrs={"ro", "big"}, EcCfg=[], AsMin=True, MaxOps=5, MaxSrv=3,
                                       VolCfg=[dict(MVOLS[1], id=1)])))
         return res
     return [("vol", dict(MBASE, VolCfg=vols, Attrs={"rem"}, EcCfg=[], MaxOps=3 + t, MaxSrv=3 + t)),
@@ -236,6 +236,11 @@ def run_prop(ctx, prop):
                                          "SPECIFICATION Spec\nCHECK_DEADLOCK FALSE\nVIEW MCView\nINVARIANT InvC11Strict\n", mc),
                             workers=4, timeout=800, expect_violation="InvC11Strict", coverage=False,
                             label="layer B without the known finding admitted: ec lookup must break")
+            name, mc = model_cfgs(prop, True)[1]
+            ctx.model_check(ctx.instance("MCnobig_%s" % prop, "MasterTopoImpl",
+                                         "SPECIFICATION Spec\nCHECK_DEADLOCK FALSE\nVIEW MCView\nINVARIANT InvC11NoEc\n", mc),
+                            workers=4, timeout=800, expect_violation="InvC11NoEc", coverage=False,
+                            label="layer B (asmin) without C11-oversized-joins-writable admitted: must break")
     if not ctx.replay:
         # 3. G3: random behaviours of a larger instance of the layer-B model
         sc = sim_cfg(prop)
